@@ -554,7 +554,7 @@ def r10_22(run, model):
         run.ob("R10.22", f"{f.name}|{st['segs'][-1]} is built from its token", ok, site(LOWER, st["sp"]),
                "inside the arm for the literal token of that kind" if ok else "built outside the arm that reads the token: a computed literal",
                witness="`-300u8`: the sign is folded into the literal as (-300) mod 256 = 212; the range check that rejects 300u8 never sees 300")
-    run.floor("literal nodes built in ast::lower", len(sites), 10)
+    run.floor("literal nodes built in ast::lower", len(sites), 12)
 
 
 def _cast_keeps(src, tgt):
@@ -598,7 +598,7 @@ def r10_23(run, model):
                                f"`{S.norm_ws(run.facts.text(rel, c['sp']))[:60]}` in the arm for {w}",
                                witness="let big: uint64 = 18446744073709551615u64 is emitted as `var big uint64 = -1` (Go: constant -1 overflows uint64); "
                                        "`match x { 9223372036854775808u64 => .. }` becomes `case -9223372036854775808:`")
-    run.floor("casts in single-width arms", n, 2)
+    run.floor("casts in single-width arms", n, 5)
 
 
 def r10_15(run, model):
